@@ -70,7 +70,7 @@ class C05(Prop):
         for k in range(K):
             P = R.fork("plan", k)
             c2 = copy.deepcopy(conn)
-            pol = apply_segmentation(P, c2, net=NET if P.chance(80) else None)
+            pol = apply_segmentation(P, c2, net=NET if P.chance(80) else None, displace_client_first=True)
             tcp = c2["tcp"]
             plan = {"cutmode": "explicit", "cuts": tcp["cuts"], "acts": tcp.get("acts", {}), "seg_policy": pol}
             if P.chance(35):
